@@ -264,6 +264,8 @@ func runC08(w *World, r *Report) {
 		r.Fail(VViolation, "bounds", "protocol", "inventory", "-", fmt.Sprintf("only %d byte-slice consuming functions found in package protocol (reference tree: 45)", len(funcs)))
 	}
 	decideTotality(w, r, funcs, nil)
+	r.Rule("nilrecv", "decoders call methods on their receiver's interface/pointer fields only after assigning them on every path", 10)
+	nilRecvRule(w, r, funcs)
 }
 
 // relaxQuotients replaces every quotient A/B that occurs with a positive coefficient and a divisor that
@@ -286,4 +288,70 @@ func relaxQuotients(t *Term) (*Term, []*Term, bool) {
 		out = out.AddScaled(FromAtom(a), c)
 	}
 	return out, nums, found
+}
+
+// nilRecvRule: a decoder calls a method on an interface- or pointer-typed field of its receiver only after it
+// has assigned that field a value on every path to the call (or under a nil test). Decoders are handed fresh
+// receivers (new(T)): a field that some path leaves as it was is nil there, and the call panics.
+func nilRecvRule(w *World, r *Report, funcs []*FuncInfo) {
+	for _, fi := range funcs {
+		if fi.Recv == nil || fi.Decl.Name.Name != "UnmarshalBinary" {
+			continue
+		}
+		fs := w.Interpret(fi, "decode")
+		seen := map[string]bool{}
+		for _, c := range fs.Calls {
+			var path string
+			var t types.Type
+			mayNil := false
+			switch v := c.Recv.(type) {
+			case ObjV:
+				path, t = v.Path, v.Type
+				if !strings.HasPrefix(path, "$.") {
+					continue // an object this activation created
+				}
+				mayNil = true // the receiver's field as it was on entry
+			case MaybeV:
+				path, t, mayNil = v.V.Path, v.V.Type, true
+			case AltV:
+				if !v.MayNil || len(v.Alts) == 0 {
+					continue
+				}
+				path, t, mayNil = v.Alts[0].Path, v.Alts[0].Type, true
+			case NilV:
+				path, mayNil = c.Text, true
+			default:
+				continue
+			}
+			if !mayNil || strings.Contains(path, "[*]") {
+				continue
+			}
+			if t != nil {
+				switch t.Underlying().(type) {
+				case *types.Interface, *types.Pointer:
+				default:
+					continue
+				}
+			}
+			if strings.Contains(c.Guard, "!("+path+"==nil)") {
+				continue
+			}
+			inst := path + "." + calleeName(c)
+			if seen[inst] {
+				continue
+			}
+			seen[inst] = true
+			r.Fail(VViolation, "nilrecv", fi.Key, inst, w.Pos(c.Pos), fmt.Sprintf("%s is called on %s, which this decoder has not assigned on every path to the call: on a fresh receiver it is nil there and the call panics", calleeName(c), path))
+		}
+		if len(seen) == 0 {
+			r.OK("nilrecv", fi.Key, "", w.Pos(fi.Decl.Pos()), "every method call on a receiver field follows an assignment of that field on all paths", len(fs.Calls) > 0)
+		}
+	}
+}
+
+func calleeName(c *CallRec) string {
+	if c.Callee != nil {
+		return c.Callee.Name()
+	}
+	return "method"
 }
